@@ -1746,7 +1746,11 @@ dt_dtcmp(struct dt_dt_s d1, struct dt_dt_s d2)
 		/* always equal */
 		return -2;
 	}
-	if (UNLIKELY(d1.typ == DT_SEXY || d1.typ == DT_SEXYTAI)) {
+	if (UNLIKELY(d1.typ == DT_YMDHMS)) {
+		/* packed as well, compare the corresponding sandwiches */
+		d1 = dt_dtconv((dt_dttyp_t)DT_YMD, d1);
+		d2 = dt_dtconv((dt_dttyp_t)DT_YMD, d2);
+	} else if (UNLIKELY(d1.typ == DT_SEXY || d1.typ == DT_SEXYTAI)) {
 		/* packed epoch values, there is no date/time sandwich */
 		if (d1.sexy < d2.sexy) {
 			return -1;
